@@ -1,10 +1,15 @@
 package main
 
 import (
+	"bytes"
 	"errors"
 	"fmt"
 	"os"
 	"path/filepath"
+	"runtime"
+	"strconv"
+	"sync"
+	"time"
 
 	"github.com/richardmorrey/flap/pkg/db"
 	"github.com/richardmorrey/flap/pkg/flap"
@@ -21,11 +26,95 @@ type faultPlan struct {
 	fail   map[int]bool // absolute call indices that fail
 	trace  []string     // kind of every call
 	active bool
+	mt     *mtPlan // multi-threaded update: faults addressed per worker
 }
 
-func (p *faultPlan) hit(kind string) bool {
+// mtPlan addresses a fault as (worker, i): the i-th store call made by the update worker that owns
+// the key prefixes [worker*delta, (worker+1)*delta).  Workers are told apart by goroutine; a
+// goroutine's worker number is known from the first prefix it iterates.  i = 0 is the worker's
+// MakeBatch, which happens before the worker is known: it fails for whichever worker asks first
+// (they are interchangeable at that point).  The final flush of every worker that is not the
+// target waits until the fault has been injected, so the failing worker always reports first and
+// healthy workers after it (the order in which a later result could hide an earlier error).
+type mtPlan struct {
+	mu       sync.Mutex
+	delta    int
+	workers  map[uint64]*mtWorker
+	targetW  int // -1: none
+	targetI  int
+	fired    bool
+	firedCh  chan struct{}
+	snapshot bool // main-goroutine snapshot call seen
+}
+type mtWorker struct {
+	w     int // -1 until known
+	n     int
+	trace []string
+	hit   bool
+}
+
+func goid() uint64 {
+	var buf [64]byte
+	b := buf[:runtime.Stack(buf[:], false)]
+	b = bytes.TrimPrefix(b, []byte("goroutine "))
+	b = b[:bytes.IndexByte(b, ' ')]
+	n, _ := strconv.ParseUint(string(b), 10, 64)
+	return n
+}
+
+func (m *mtPlan) call(kind string, prefix string) bool {
+	m.mu.Lock()
+	defer m.mu.Unlock()
+	g := goid()
+	wk := m.workers[g]
+	if wk == nil {
+		wk = &mtWorker{w: -1}
+		m.workers[g] = wk
+	}
+	if kind == "newiter" && wk.w < 0 {
+		wk.w = int(hexVal(prefix[0])) / m.delta
+	}
+	i := wk.n
+	wk.n++
+	wk.trace = append(wk.trace, kind)
+	if m.targetW < 0 || m.fired {
+		return false
+	}
+	if (m.targetI == 0 && i == 0) || (i > 0 && wk.w == m.targetW && i == m.targetI) {
+		m.fired = true
+		wk.hit = true
+		close(m.firedCh)
+		return true
+	}
+	return false
+}
+
+// holdBeforeFlush: called by a worker about to do its final flush
+func (m *mtPlan) holdBeforeFlush() {
+	m.mu.Lock()
+	g := goid()
+	wk := m.workers[g]
+	wait := m.targetW >= 0 && !m.fired && wk != nil && !(m.targetI > 0 && wk.w == m.targetW)
+	m.mu.Unlock()
+	if wait {
+		select {
+		case <-m.firedCh:
+		case <-time.After(400 * time.Millisecond):
+		}
+	}
+}
+
+func (p *faultPlan) hit(kind string) bool { return p.hitp(kind, "") }
+func (p *faultPlan) hitp(kind string, prefix string) bool {
 	if !p.active {
 		return false
+	}
+	if p.mt != nil {
+		if kind == "snapshot" {
+			p.mt.snapshot = true
+			return false
+		}
+		return p.mt.call(kind, prefix)
 	}
 	i := p.n
 	p.n++
@@ -106,7 +195,7 @@ type faultSnap struct {
 func (s *faultSnap) Get(k string, x db.Serialize) error { return s.inner.Get(k, x) }
 func (s *faultSnap) Release() error                     { return s.inner.Release() }
 func (s *faultSnap) NewIterator(p string) (db.Iterator, error) {
-	if s.plan.hit("newiter") {
+	if s.plan.hitp("newiter", p) {
 		return nil, errInjected
 	}
 	it, err := s.inner.NewIterator(p)
@@ -152,6 +241,9 @@ func (b *faultBatch) Put(k string, s db.Serialize) error {
 }
 func (b *faultBatch) Delete(k string) error { return b.inner.Delete(k) }
 func (b *faultBatch) Release() error {
+	if b.plan.mt != nil && b.plan.active {
+		b.plan.mt.holdBeforeFlush()
+	}
 	if b.plan.hit("flush") {
 		return errInjected
 	}
@@ -169,7 +261,7 @@ type c14World struct {
 
 // buildWorld prepares a database image (no faults): travellers with flights and balances such that
 // the next update changes several records, and promises enabled.
-func buildWorld(rng *Rng, dir string) *c14World {
+func buildWorld(rng *Rng, dir string, threads int) *c14World {
 	os.RemoveAll(dir)
 	os.MkdirAll(dir, 0o755)
 	ldb := db.NewLevelDB(dir)
@@ -181,11 +273,14 @@ func buildWorld(rng *Rng, dir string) *c14World {
 	if rng.Chance(1, 4) {
 		p.Promises.Algo = 0
 	}
-	p.Threads = 1
+	p.Threads = byte(threads)
 	eng.Administrator.SetParams(p)
 	w := &c14World{dir: dir, params: p}
 	used := map[string]bool{}
 	n := rng.Range(2, 9)
+	if threads > 1 {
+		n = rng.Range(8, 20)
+	}
 	day := uint64(rng.Range(17500, 19500))
 	for i := 0; i < n; i++ {
 		w.pps = append(w.pps, flap.NewPassport(passportWithPrefix(rng, -1, used), "GBR"))
@@ -253,6 +348,11 @@ func runOp(w *c14World, scratch string, op string, fail map[int]bool, rng *Rng) 
 			plan.active = true
 			_, res.err = eng.UpdateTripsAndBackfill(flap.EpochTime(w.now))
 		case "save":
+			// change every administrator record in memory first, so that each of Save's puts matters
+			eng.UpdateTripsAndBackfill(flap.EpochTime(w.now))
+			np := w.params
+			np.DailyTotal += 17.5
+			eng.Administrator.SetParams(np)
 			plan.active = true
 			res.err = eng.Administrator.Save()
 		}
@@ -271,6 +371,116 @@ func runOp(w *c14World, scratch string, op string, fail map[int]bool, rng *Rng) 
 	return
 }
 
+// runUpdateMT runs the daily update with several workers; the fault (if targetW >= 0) is the
+// targetI-th store call of worker targetW.  Returns the per-worker traces ordered by worker.
+func runUpdateMT(w *c14World, scratch string, targetW, targetI int) (res c14Result, traces [][]string, fired bool) {
+	os.RemoveAll(scratch)
+	if err := copyTree(w.dir, scratch); err != nil {
+		panic(err)
+	}
+	ldb := db.NewLevelDB(scratch)
+	threads := int(w.params.Threads)
+	mt := &mtPlan{delta: 16 / threads, workers: map[uint64]*mtWorker{}, targetW: targetW, targetI: targetI, firedCh: make(chan struct{})}
+	plan := &faultPlan{mt: mt}
+	fdb := &faultDB{ldb, plan}
+	eng := flap.NewEngine(fdb, 0, scratch)
+	func() {
+		defer func() {
+			if r := recover(); r != nil {
+				res.pan = true
+				res.err = fmt.Errorf("panic: %v", r)
+			}
+		}()
+		plan.active = true
+		_, res.err = eng.UpdateTripsAndBackfill(flap.EpochTime(w.now))
+	}()
+	plan.active = false
+	fired = mt.fired
+	traces = make([][]string, 16/mt.delta)
+	for _, wk := range mt.workers {
+		if wk.w >= 0 && wk.w < len(traces) {
+			traces[wk.w] = wk.trace
+		}
+	}
+	ldb.Release()
+	l2 := db.NewLevelDB(scratch)
+	e2 := flap.NewEngine(l2, 0, scratch)
+	s := &engSession{eng: e2}
+	res.digest = s.tableDigest()
+	res.admin = hashAdmin(e2.Administrator)
+	l2.Release()
+	os.RemoveAll(scratch)
+	return
+}
+
+// c14MT: every single fault position of every worker of a multi-threaded update
+func c14MT(o *Out, r *Rng, wd string, wi int, threads int) {
+	w := buildWorld(r, filepath.Join(wd, fmt.Sprintf("m%04d", wi)), threads)
+	defer os.RemoveAll(w.dir)
+	scratch := filepath.Join(wd, fmt.Sprintf("ms%04d", wi))
+	base, traces, _ := runUpdateMT(w, scratch, -1, 0)
+	if base.err != nil {
+		return
+	}
+	// model shape: per worker, the number of batch puts per prefix
+	var ws []string
+	offs := make([]int, len(traces))
+	pos := 1 // the snapshot
+	for wn, tr := range traces {
+		offs[wn] = pos
+		pos += len(tr)
+		var counts []string
+		c := -1
+		for _, k := range tr {
+			switch k {
+			case "newiter":
+				if c >= 0 {
+					counts = append(counts, fmt.Sprintf("%d%%nat", c))
+				}
+				c = 0
+			case "batchput":
+				c++
+			}
+		}
+		if c >= 0 {
+			counts = append(counts, fmt.Sprintf("%d%%nat", c))
+		}
+		ws = append(ws, List(counts))
+	}
+	shape := func(faults []int, ok bool) string {
+		var fl []string
+		for _, f := range faults {
+			fl = append(fl, fmt.Sprintf("%d%%nat", f))
+		}
+		return fmt.Sprintf("FUpdate %s %s %s", List(ws), List(fl), Bool(ok))
+	}
+	o.AddCase(shape(nil, true), false, map[string]interface{}{"world": wi, "op": "update", "threads": threads, "faults": []int{}, "traces": traces})
+	for wn, tr := range traces {
+		for i := range tr {
+			if i == 0 && wn > 0 {
+				continue // MakeBatch: the workers are interchangeable, tried once
+			}
+			res, _, fired := runUpdateMT(w, scratch, wn, i)
+			if !fired {
+				o.Count("mt_fault_not_reached")
+				continue
+			}
+			rep := map[string]interface{}{"world": wi, "op": "update", "threads": threads, "worker": wn, "call": i, "kind": tr[i], "reported_error": fmt.Sprint(res.err)}
+			o.AddCase(shape([]int{offs[wn] + i}, res.err == nil), res.err != nil, rep)
+			o.Count("fault_update_multithreaded")
+			o.Count("fault_kind_" + tr[i])
+			if res.pan {
+				o.Fail(MonitorFailure{Property: "C14", Signature: "panic-under-storage-fault", What: fmt.Sprintf("update with %d threads panicked with a fault at call %d (%s) of worker %d: %v", threads, i, tr[i], wn, res.err), Replay: rep})
+				continue
+			}
+			if res.err == nil {
+				sig := "update-success-reported-although-a-worker-failed"
+				o.Fail(MonitorFailure{Property: "C14", Signature: sig, What: fmt.Sprintf("daily update with %d threads returned success although call %d (%s) of worker %d failed and healthy workers reported after it (stored state equals fault-free outcome: %v)", threads, i, tr[i], wn, res.digest == base.digest && res.admin == base.admin), Replay: rep})
+			}
+		}
+	}
+}
+
 func runC14(o *Out, rng *Rng, tier string, replay string) {
 	nWorlds := 6
 	pairs := 25
@@ -279,11 +489,11 @@ func runC14(o *Out, rng *Rng, tier string, replay string) {
 	} else if tier == "search" {
 		nWorlds, pairs = 20, 40
 	}
-	o.sum.Rule = "case = one operation (check-in, Make current and stale, daily update, administrator Save) on a copy of a prepared database image with storage faults injected through a db.Database wrapper at EVERY single call position of its fault-free trace (get, put, snapshot, batch creation, iterator creation, iteration error, batch put, flush) and at sampled pairs of positions; the reported result is compared with the model's skeleton under the same schedule, and after a clean reopen the stored state must equal the fault-free outcome whenever success was reported; non-trivial = a fault position at which the operation must (and does) report an error; distinct by (world, operation, positions)"
+	o.sum.Rule = "case = one operation (check-in, Make current and stale, daily update, administrator Save) on a copy of a prepared database image with storage faults injected through a db.Database wrapper at EVERY single call position of its fault-free trace (get, put, snapshot, batch creation, iterator creation, iteration error, batch put, flush) and at sampled pairs of positions; in addition multi-threaded daily updates (2, 4, 8, 16 workers) with a fault at every call position of every worker, addressed per worker goroutine, healthy workers held at their final flush until the fault has been injected so that they report after the failing one; the reported result is compared with the model's skeleton under the same schedule, and after a clean reopen the stored state must equal the fault-free outcome whenever success was reported; non-trivial = a fault position at which the operation must (and does) report an error; distinct by (world, operation, positions)"
 	wd := filepath.Join(o.dir, "worlds")
 	for wi := 0; wi < nWorlds; wi++ {
 		r := rng.Fork()
-		w := buildWorld(r, filepath.Join(wd, fmt.Sprintf("w%04d", wi)))
+		w := buildWorld(r, filepath.Join(wd, fmt.Sprintf("w%04d", wi)), 1)
 		scratch := filepath.Join(wd, fmt.Sprintf("s%04d", wi))
 		hasPred := w.params.Promises.Algo&0x0f != 0
 		ops := []string{"submit", "update", "save"}
@@ -355,6 +565,10 @@ func runC14(o *Out, rng *Rng, tier string, replay string) {
 					o.Fail(MonitorFailure{Property: "C14", Signature: "panic-under-storage-fault", What: fmt.Sprintf("%s panicked with faults at %v (%v): %v", op, faults, kindsOf(base.trace, faults), res.err), Replay: rep})
 					return
 				}
+				if res.err == nil && op != "makestale" && len(faults) > 0 && !allKind(base.trace, faults, "get") && (res.digest == base.digest && res.admin == base.admin) {
+					// the stored state happens to equal the fault-free one (e.g. the record re-written was unchanged), but a failed write was still reported as success
+					o.Fail(MonitorFailure{Property: "C14", Signature: "failed-store-call-reported-as-success", What: fmt.Sprintf("%s returned success although store call(s) %v (%v) failed", op, faults, kindsOf(base.trace, faults)), Replay: rep})
+				}
 				if res.err == nil && op != "makestale" && (res.digest != base.digest || (op == "save" || op == "update") && res.admin != base.admin) {
 					sig := "success-reported-but-effects-not-stored"
 					if len(faults) > 0 && allKind(base.trace, faults, "get") {
@@ -378,6 +592,15 @@ func runC14(o *Out, rng *Rng, tier string, replay string) {
 			}
 		}
 		os.RemoveAll(w.dir)
+	}
+	nMT := 3
+	if tier == "thorough" {
+		nMT = 24
+	} else if tier == "search" {
+		nMT = 8
+	}
+	for wi := 0; wi < nMT; wi++ {
+		c14MT(o, rng.Fork(), wd, wi, []int{2, 4, 16, 8}[wi%4])
 	}
 	o.FlushCases("C14", "From Coq Require Import List.\nFrom Flap Require Import Model.Faults Run.RunFaults.\nImport ListNotations.",
 		"list fcase", "f_mismatches 0%nat", 8)
